@@ -17,6 +17,16 @@ def _deps():
     return premises.DEPS
 
 
+def _traits_note(pid):
+    from tmv import traits
+    ts = traits.TYPES.get(pid)
+    if not ts:
+        return ""
+    return (" Equality, hashing and copying of the types these rules compare (%s%s) are decided too (obligations `%s-TR`): every "
+            "PartialEq/Eq/Hash/Clone/Ord implementation is derive output or a hand-written implementation of a recognised structural form."
+            % (", ".join(t.rsplit("::", 1)[1] for t in ts[:5]), ", ..." if len(ts) > 5 else "", pid))
+
+
 def _premise_note(pid):
     d = _deps().get(pid)
     if not d:
@@ -52,7 +62,7 @@ def main():
                 "text": meta["level_text"],
                 "design_ref": meta.get("design_ref", "DESIGN.md section 5, " + pid),
             },
-            "level_note": meta["level_note"] + _premise_note(pid),
+            "level_note": meta["level_note"] + _premise_note(pid) + _traits_note(pid),
             "technique": meta["technique"] + (" (+ re-run of the rule groups of other properties it rests on)" if pid in _deps() else ""),
         })
     man = {
